@@ -337,6 +337,16 @@ func EQZ(t *Term) *Term {
 	if r := eqzSmallSym(t); r != nil {
 		return r
 	}
+	// a sum of non-negative word-operation atoms (xor/or/and results, limbs) with positive coefficients is zero iff
+	// every one of them is: the product of the individual tests (which the limb grouping then reads as whole-value
+	// equalities)
+	if len(t.mons) >= 2 && len(t.mons) <= 8 && zeroSet(t) != nil && !symZeroSet(t) {
+		out := TInt(1)
+		for _, m := range t.sortedMons() {
+			out = out.Mul(EQZ(TAtom(m.atom)))
+		}
+		return out
+	}
 	// a sum of non-negative atoms with positive coefficients is zero iff every atom is: unit coefficients
 	if len(t.mons) >= 2 {
 		if symZeroSet(t) {
@@ -480,6 +490,17 @@ func LT(a, b *Term) *Term {
 	}
 	if alo.Cmp(bhi) >= 0 {
 		return TInt(0)
+	}
+	// 0 < b for b >= 0 is "b != 0"; a < 1 for a >= 0 is "a = 0"
+	if c, ok := a.IsConst(); ok && c.Sign() == 0 && blo.Sign() >= 0 {
+		if _, isC := b.IsConst(); !isC {
+			return TInt(1).Sub(EQZ(b))
+		}
+	}
+	if c, ok := b.IsConst(); ok && c.Cmp(bigOne) == 0 && alo.Sign() >= 0 {
+		if _, isC := a.IsConst(); !isC {
+			return EQZ(a)
+		}
 	}
 	if a.IsPred() && b.IsPred() {
 		if r := pureFunc(func(x []*big.Int) *big.Int {
